@@ -195,7 +195,8 @@ CHECKS = {
     "C15": dict(
         level="model_checking",
         clauses={"equiv", "rows", "names", "accept", "export-error"},
-        phases=dict(quick=[dict(profile="equiv2"), dict(profile="equiv_tall")], thorough=[dict(profile="equiv2"), dict(profile="equiv_tall")]),
+        phases=dict(quick=[dict(profile="equiv2", opts=dict(pool=True)), dict(profile="equiv_tall")],
+                    thorough=[dict(profile="equiv2", opts=dict(pool=True)), dict(profile="equiv2"), dict(profile="equiv_tall")]),
     ),
     "C16": dict(
         level="model_checking",
